@@ -3,7 +3,6 @@ package c10
 import (
 	"fmt"
 	"math"
-	"runtime"
 	"time"
 
 	"github.com/tdewolff/canvas"
@@ -21,11 +20,11 @@ type dop struct {
 }
 
 type dargs struct {
-	s      float64 // scale of the embedding
-	e      latgeo.Emb
-	paths  []*canvas.Path // operand paths handed to the method
-	floats [][]float64    // float slices handed to the method
-	pathsBefore, floatsBefore [][]float64 // their contents when they were created (before the call)
+	s                         float64 // scale of the embedding
+	e                         latgeo.Emb
+	paths                     []*canvas.Path // operand paths handed to the method
+	floats                    [][]float64    // float slices handed to the method
+	pathsBefore, floatsBefore [][]float64    // their contents when they were created (before the call)
 }
 
 func (x *dargs) pt(a, b float64) (float64, float64) { return x.e.Map(a, b) }
@@ -415,50 +414,21 @@ func featTag(op string, f Feat) string {
 			t += ":" + n
 		}
 	}
+	zeroWidth := f.Spike || f.NRev > 0 // a closed spike or an out-and-back excursion: part of the path has no width
 	switch op {
 	case "Settle", "And", "Or", "Xor", "Not", "DivideBy":
 		add(f.Open, "open-subpath")
-		add(!f.Open && f.Spike, "spike")
+		add(!f.Open && zeroWidth, "zero-width-part")
 	case "Filling":
 		add(f.NSub >= 2, "multi-subpath")
-	case "Flatten", "Stroke", "Offset", "Dash", "SplitAt", "XMonotone", "ReplaceArcs", "ToPDF", "CCW":
+	case "Stroke", "Offset":
+		add(f.CurveLoop, "bezier-loop")
+		add(!f.CurveLoop && (f.QuadFlat || f.CubeFlat), "flat-bezier")
+		add(!f.CurveLoop && !(f.QuadFlat || f.CubeFlat) && zeroWidth, "zero-width-part")
+	case "Flatten", "Dash", "SplitAt", "XMonotone", "ReplaceArcs", "ToPDF", "CCW":
 		add(f.CurveLoop, "bezier-loop")
 		add(!f.CurveLoop && (f.QuadFlat || f.CubeFlat), "flat-bezier")
 		add(!f.CurveLoop && !(f.QuadFlat || f.CubeFlat) && f.NRev > 0, "collinear-reversal")
 	}
 	return t
-}
-
-// ProbeResult / ProbeOps: development aid (cmd/zc10probe): one derived operation at a time with time and allocation.
-type ProbeResult struct {
-	Name   string
-	T      time.Duration
-	Alloc  uint64
-	Sig    string
-	Detail string
-}
-
-func ProbeOps(data []float64, e latgeo.Emb, f Feat, limit time.Duration) []ProbeResult {
-	var out []ProbeResult
-	for i := range dops {
-		var o opOutcome
-		var m0, m1 runtime.MemStats
-		runtime.ReadMemStats(&m0)
-		t0 := time.Now()
-		k, _ := latgeo.Guard(limit, func() { o = runOp(&dops[i], data, e) })
-		r := ProbeResult{Name: dops[i].Name + "/" + dops[i].Var, T: time.Since(t0)}
-		runtime.ReadMemStats(&m1)
-		r.Alloc = m1.TotalAlloc - m0.TotalAlloc
-		if k == "timeout" {
-			r.Sig, r.Detail = "timeout-"+dops[i].Name, "timeout"
-		} else if o.kind == "panic" {
-			r.Sig, r.Detail = panicSig(o, f), fmt.Sprint(o.msg)
-		} else if o.recvChanged {
-			r.Sig = "recv-changed-" + dops[i].Name
-		} else if o.argChanged != "" {
-			r.Sig, r.Detail = "arg-changed-"+dops[i].Name+argVar(o), o.argChanged
-		}
-		out = append(out, r)
-	}
-	return out
 }
